@@ -385,9 +385,6 @@ static double opacity(const ACfg &cfg, const Leaf &l, int field, double base) {
   }
 }
 
-// progress markers for the watchdog (a hanging interact() must not hang the check)
-static std::atomic< uint64_t > g_beat[256];
-static char g_current[256][1024];
 
 static void rays_for(const ACfg &cfg, int per, int field, bool thorough, long seed, Result &R, Stats &st, const RayCase *only, bool verbose, int hangmask = 0) {
   const bool P[3] = {(per & 1) != 0, (per & 2) != 0, (per & 4) != 0};
@@ -437,16 +434,7 @@ static void rays_for(const ACfg &cfg, int per, int field, bool thorough, long se
       hi[d] = top[d];
     }
   };
-  const int tid = omp_get_thread_num();
-  auto trace = [&](const RayCase &rc) {
-    snprintf(g_current[tid], sizeof(g_current[tid]),
-             "{%s, \"what\": \"ray\", \"periodic\": %d, \"field\": %d, \"start\": \"%a %a %a\", \"dir\": \"%a %a %a\", \"target\": \"%a\", \"iod\": 0}", cfg_json(cfg).c_str(), per, field,
-             rc.p[0], rc.p[1], rc.p[2], rc.dir[0], rc.dir[1], rc.dir[2], rc.target);
-    ++g_beat[tid];
-    const bool ok = run_ray(cx, grid, rc, R, st, verbose);
-    ++g_beat[tid];
-    return ok;
-  };
+  auto trace = [&](const RayCase &rc) { return run_ray(cx, grid, rc, R, st, verbose); };
   if (only) {
     trace(*only);
     delete B.grid;
@@ -661,31 +649,7 @@ int main(int argc, char **argv) {
         tasks.push_back({c, per, field, it == hang.end() ? 0 : it->second});
       }
   }
-  // watchdog: a ray that does not come back within 30 s is reported as a hang
-  std::atomic< bool > finished(false);
-  std::thread watchdog([&]() {
-    uint64_t last[256] = {0};
-    int stale[256] = {0};
-    while (!finished) {
-      std::this_thread::sleep_for(std::chrono::seconds(1));
-      for (int t = 0; t < 256; ++t) {
-        const uint64_t b = g_beat[t];
-        if (b == last[t] && (b & 1))
-          ++stale[t];
-        else
-          stale[t] = 0;
-        last[t] = b;
-        if (stale[t] > 30) {
-          R.violation("C16:amrdensity:interact-does-not-return", std::string("interact() has not returned for 30 s: ") + g_current[t], g_current[t]);
-          R.cap("run ended by the watchdog");
-          R.evaluations = ST.rays + 1;
-          R.nontrivial = 2;
-          R.finish(A);
-          _exit(0);
-        }
-      }
-    }
-  });
+  Watchdog watchdog(R, A, "C16:amrdensity");
   bool cut = false;
 #pragma omp parallel
   {
@@ -701,8 +665,7 @@ int main(int argc, char **argv) {
 #pragma omp critical
     ST.merge(st);
   }
-  finished = true;
-  watchdog.join();
+  watchdog.stop();
   if (cut || R.out_of_time())
     R.hit_deadline("ray lattice incomplete");
   R.evaluations = ST.positions + ST.cells + ST.rays;
